@@ -28,6 +28,7 @@ claimed = {
  "C24": ("files of size 0, 1, 100, 8191-8193, 30000 x Range strings from a grammar (valid, open, suffix incl. -0, reversed, multi, garbage, overflow) x Accept-Encoding with gzip/br/zstd x If-Modified-Since before/at/after/garbage x GET and HEAD, short file reads, cache expiry between requests, concurrent compression; independent RFC 9110 range reference, decoded-body equality, HEAD mirrors GET, ParseByteRange invariant", "6/C24"),
  "C25": ("4-12 concurrent FS requests with slow or aborting clients (tiny receive windows), CacheDuration 100 ms-1 s, SkipCache, CleanStop closed at a seeded time, the handler cleanup run as a simulator event; per-handle accounting in the substituted file layer: closed exactly once, never read after close, none open after quiescence", "6/C25"),
  "C36": ("net/http handler programs (WriteHeader incl. 1xx and repeated calls, Header().Set/Add/Del, Write, Flush, sleeps) and requests with repeated headers and bodies; the reference response comes from a real net/http server run on an in-memory pipe, the simulated side runs NewFastHTTPHandler with handler goroutine, serve goroutine and stream writer interleaved by the scheduler; ConvertRequest compared with net/http parse of the same bytes", "6/C36"),
+ "C22": ("(a) CompressHandler, CompressHandlerLevel and CompressHandlerBrotliLevel with in-range and out-of-range levels over buffered and streamed bodies around the 200-byte threshold, Accept-Encoding lists with q-values, wildcards and unknown codings, pre-set Content-Encoding; client decodes with the standard decoders; (b) 1 to 2048 x GOMAXPROCS + 60 simultaneous Append*/Write* calls per codec with the stackless worker tasks starved by the scheduler so the work queue saturates deterministically; every output must decode to its input", "6/C22"),
  "C33": ("PipeConns stream equality and Close semantics, InmemoryListener Dial/Accept/Close pairing, under seeded interleavings of writers, readers, deadlines and closers at every channel/select/mutex operation", "6/C33"),
 }
 na = {
